@@ -36,13 +36,33 @@ func runMatcherProperty(t *testing.T, prop string) {
 	defer rep.Write()
 	rng := hx.NewRNG(env.Seed ^ 0xC01)
 	orc := hx.NewOracle()
-	nCases := env.Scale(60, 1500)
+	nCases := env.Scale(300, 3000)
 	var cases []*matcherCase
 	for _, v := range allVariants {
 		for i := 0; i < nCases; i++ {
 			mc := genMatcherCase(t, rng, genCfg(rng, v), streamWeights[prop])
 			runMatcherCase(t, &mc)
 			cases = append(cases, &mc)
+		}
+	}
+	switch prop {
+	case "C02":
+		for _, v := range allVariants {
+			for i := 0; i < env.Scale(6, 60); i++ {
+				c := genCfg(rng, v)
+				c.Loosen = i%2 == 0
+				mc := genCompletenessCase(t, rng, c, env.Scale(4, 40))
+				runMatcherCase(t, &mc)
+				cases = append(cases, &mc)
+			}
+		}
+	case "C09":
+		for _, v := range allVariants {
+			for i := 0; i < env.Scale(2, 12); i++ {
+				mc := genTruncationCase(t, rng, genCfg(rng, v))
+				runMatcherCase(t, &mc)
+				cases = append(cases, &mc)
+			}
 		}
 	}
 	lines := make([]string, len(cases))
@@ -125,7 +145,29 @@ func specOnImpl(prop string, mc *matcherCase, k int) string {
 		return "the driver accepted " + st.Impl + " but the packet is not a genuine reply to that probe (Spec.genuine* is false on the raw bytes)"
 	}
 	switch prop {
+	case "C02":
+		if !st.Op.Send && st.Op.Meta["stream"] == "catalogue" {
+			var f replyForm
+			for _, g := range catalogueFor(mc.Cfg.kind(), mc.Cfg.v6()) {
+				if g.Name == st.Op.Meta["form"] {
+					f = g
+				}
+			}
+			ttl := 0
+			fmt.Sscan(st.Op.Meta["ttl"], &ttl)
+			want, ok := expectedGenuine(mc.Cfg, f, ttl, st.Op.Meta["from"])
+			got := st.Impl
+			if strings.HasPrefix(got, "acc:") {
+				got = got[:strings.LastIndex(got, ":")] // drop the send-time component
+			}
+			if ok && got != want {
+				return fmt.Sprintf("genuine reply of form %s for TTL %d from %s was not recognised: driver returned %s, the property demands %s", f.Name, ttl, st.Op.Meta["from"], st.Impl, want)
+			}
+		}
 	case "C09":
+		if !st.Op.Send && len(st.Op.Pkt) == 0 {
+			return "" // a zero-length read is a capture-layer fault (C10), not a packet
+		}
 		if !st.Op.Send && st.Impl == "fatal" {
 			return "an inbound packet made ReceiveProbe return a fatal (run-aborting) error"
 		}
